@@ -24,6 +24,7 @@ type mval struct {
 	c     []string
 	isC   bool // pointer-receiver Cloner
 	isV   bool // value-receiver Cloner
+	isM   bool // map-kind Cloner with one reference element (c[0])
 	isNil bool
 }
 
@@ -70,6 +71,8 @@ func (st mstore) render() string {
 			b.WriteString("C{" + strings.Join(v.c, ",") + "}")
 		} else if v.isV {
 			b.WriteString("V{" + strings.Join(v.c, ",") + "}")
+		} else if v.isM {
+			b.WriteString("M{" + strings.Join(v.c, ",") + "}")
 		} else if v.isNil {
 			b.WriteString("nil")
 		} else {
@@ -145,6 +148,8 @@ func RunModel(g *gen.Grammar, c *Call, withState bool) *Model {
 	for _, kv := range c.Opts.InitState {
 		if strings.HasPrefix(kv[1], "C:") {
 			st = st.with(kv[0], mval{isC: true, c: strings.Split(kv[1][2:], ",")})
+		} else if strings.HasPrefix(kv[1], "M:") {
+			st = st.with(kv[0], mval{isM: true, c: []string{kv[1][2:]}})
 		} else if strings.HasPrefix(kv[1], "V:") {
 			st = st.with(kv[0], mval{isV: true, c: strings.Split(kv[1][2:], ",")})
 		} else {
@@ -280,6 +285,12 @@ func (m *Model) apply(st mstore, ops []kernel.StateOp) mstore {
 			}
 		case "nil":
 			st = st.with(op.Key, mval{isNil: true})
+		case "mmut":
+			if v, ok := st[op.Key]; ok && v.isM && len(v.c) > 0 {
+				st = st.with(op.Key, mval{isM: true, c: []string{v.c[0] + "+" + op.Val}})
+			} else {
+				st = st.with(op.Key, mval{isM: true, c: []string{op.Val}})
+			}
 		case "vmut":
 			if v, ok := st[op.Key]; ok && v.isV && len(v.c) > 0 {
 				c := append([]string(nil), v.c...)
